@@ -38,3 +38,11 @@ add("C08", "exploration",
     "Round-trip identity of the real encoder/decoder on image groups produced by the real reader from extreme field values and on generated hierarchies covering every listed dtype kind, ranks 0-2, zero sizes and nested attributes; every document is decoded in-process and by a fresh interpreter reading it from disk, and compared at the xarray level (bit-exact values, dtypes, dims, tuple-vs-list attrs, order, paths) plus the image array's byte ranges/shape/type code.",
     "NaN payloads are not part of the comparison; spans of one datetime array stay below 2^63 units; zero-size rank>=2 arrays are an open known finding (removed from both sides before comparing the rest of the hierarchy).",
     "round-trip differential monitor across a process boundary", "DESIGN.md §4 C08")
+add("C09", "fault_enumeration",
+    "Every sampled (quick) or every (thorough) byte-length prefix of the real index document is planted in the user cache directory, next to the image, or both; writers are really interrupted (SIGXFSZ kill at a file-size limit, EFBIG at the limit, SIGKILL on entry to write(2) via strace fault injection) and read back by fresh processes; all interleavings of two writers' real syscalls on the real file supply NUL-holed states. After each state the default open_alos2 must succeed and equal the uncached tree, and create_cache=True followed by use_cache=True must end in a usable, equal cache.",
+    "CPython writes the document with one write(2); both writers write the same document. Reader of planted states is a long-lived worker (fresh processes for real kills).",
+    "fault enumeration of on-disk cache states (planted prefixes, real kills via rlimit/strace, syscall-level writer interleavings) + differential canon", "DESIGN.md §4 C09")
+add("C10", "exploration",
+    "All two-step sequences and seeded longer sequences over 16 operations (open x use_cache x create_cache x rpc, CLI creation in-process and as subprocess, cache deletions) run inside one interpreter; every step's tree is compared with a fresh uncached process's tree for that rpc, directory snapshots and an audit hook decide what was written where, option dictionaries and function defaults are compared before/after, earlier trees are re-checked for aliasing.",
+    "References come from fresh processes with an empty private cache; deletes are the harness's own.",
+    "history monitor: per-step differential canon against fresh-process references + snapshot and sys.addaudithook write monitors", "DESIGN.md §4 C10")
